@@ -460,6 +460,12 @@ def rule_d(ctx, ix):
         if res.unmodelled:
             ctx.unmodelled(R3, c.construct, res.unmodelled)
             continue
+        cross = _ctor_cross_stores(c, res.pairs)
+        ctx.ob(R3, c.construct + '.copy flow', 'copy() hands every field to the same field of the copy', not cross,
+               detail='copy() of %s passes each field to the constructor, which can store %s: the constructor re-orders / normalises '
+                      'its arguments, so the copy of a selection whose fields were edited after construction (every operand of a '
+                      'composite is copied) evaluates differently from the original'
+                      % (c.name, '; '.join('the argument read from %s into %s' % (a, b) for a, b in cross[:3])), where=where(m.func))
         missing = sorted(res.behaviour - res.carried)
         ctx.ob(R3, c.construct + '.copy', 'fields read by to_mask %s are carried by copy()' % sorted(res.behaviour),
                not missing,
@@ -474,6 +480,41 @@ def rule_d(ctx, ix):
 
 
 # ---------------------------------------------------------------------------------------
+def _ctor_cross_stores(cls, pairs):
+    """[(source fields, wrong field)]: the constructor of ``cls`` can store the parameter that copy() fills from field f
+    *directly* into another field g which copy() fills from g itself (a swap / re-ordering of arguments).  Only direct stores
+    (`self.g = p`, possibly after `p, q = q, p`) count - a field merely computed from several parameters is not a cross flow."""
+    from ..flow import Flow
+    init = cls.resolve_func('__init__')
+    if init is None or not pairs:
+        return []
+    s = init.self_name
+    params = init.params[1:]
+    stores = {}
+
+    def classify(e, state):
+        if isinstance(e, ast.Name):
+            return {t for t in state.get(e.id, ()) if t.startswith('p:')}
+        return set()
+
+    def on_store(target, tags, state, stmt):
+        if isinstance(target, ast.Attribute) and isinstance(target.value, ast.Name) and target.value.id == s:
+            stores.setdefault(target.attr, set()).update(t[2:] for t in tags if t.startswith('p:'))
+    fl = Flow(classify, on_store=on_store)
+    fl.run(init.node, {p: frozenset(['p:' + p]) for p in params})
+    own = {}
+    for p, sb, db in pairs:
+        for g in sb & db:
+            own[g] = p.lstrip('*')
+    out = []
+    for p, sb, db in pairs:
+        p = p.lstrip('*')
+        for g, ps in sorted(stores.items()):
+            if p in ps and g not in sb and g in own and own[g] != p and (sb & db):
+                out.append((sorted(sb), g))
+    return out
+
+
 def rule_e(ctx, ix):
     R = 'C01.e'
     ctx.describe(R, 'Data.get_mask falls back to key joins only on IncompatibleAttribute, forwarding (state, view)', floor=3)
